@@ -122,6 +122,23 @@ impl MatchedArg {
             .push(raw_val);
     }
 
+    /// Forget every occurrence of a value, dropping occurrences that become empty
+    pub(crate) fn remove_raw_val(&mut self, raw_val: &std::ffi::OsStr) {
+        for (vals, raw_vals) in self.vals.iter_mut().zip(self.raw_vals.iter_mut()) {
+            let mut i = 0;
+            while i < raw_vals.len() {
+                if raw_vals[i] == raw_val {
+                    raw_vals.remove(i);
+                    vals.remove(i);
+                } else {
+                    i += 1;
+                }
+            }
+        }
+        self.vals.retain(|g| !g.is_empty());
+        self.raw_vals.retain(|g| !g.is_empty());
+    }
+
     pub(crate) fn num_vals(&self) -> usize {
         self.vals.iter().map(|v| v.len()).sum()
     }
